@@ -460,7 +460,9 @@ static int moved_count(const uint8_t *p, const uint8_t *pat, const uint8_t *old,
     return exp < b ? b : a;
 }
 
-static void buffer_case(int mode, int S, int len)
+/* pre: what an earlier streaming access (the way the SDO server reads an object: start + continued chunks) left behind -
+ * 0 nothing, 1 one byte read (cursor at 1), 2 the whole object read (cursor at the end), 3 half of the object read */
+static void buffer_case(int mode, int S, int len, int pre)
 {
     char smp[200]; int exp = len < S ? len : S, got[2] = { 0, 0 }; CO_ERR err[2] = { CO_ERR_NONE, CO_ERR_NONE };
     static uint8_t oldd[sizeof DMEM];
@@ -471,6 +473,11 @@ static void buffer_case(int mode, int S, int len)
     memset(DMEM, DGUARD, sizeof DMEM); Dom.Size = (uint32_t)S;
     memcpy(DMEM + GRD, mode == 1 ? PATE : PATA, (size_t)S);
     memcpy(SMEM, PATA, (size_t)S); memset(SMEM + S, 0, sizeof SMEM - (size_t)S);
+    if (pre) {
+        static uint8_t tmp[BMAX + 8]; CO_OBJ *o = CODictFind(&Node.Dict, mode == 2 ? CO_DEV(0x2201, 0) : CO_DEV(0x2200, 0));
+        uint32_t k = pre == 1 ? 1u : pre == 2 ? (uint32_t)S : (uint32_t)(S / 2);
+        if (o) { (void)COObjRdBufStart(o, &Node, tmp, 0); if (k) (void)COObjRdBufCont(o, &Node, tmp, k); }
+    }
     for (int call = 0; call < 2 && !bad; call++) {
         const uint8_t *pat = (mode == 1 && call) ? PATB : PATA;
         memcpy(oldd, DMEM, sizeof DMEM);
@@ -507,7 +514,7 @@ static void buffer_case(int mode, int S, int len)
         }
     }
     if (OBS.fatal) FAIL("safety:fatal-error callback invoked", "buffer access");
-    if (want_sample()) snprintf(smp, sizeof smp, "%s %d byte(s) %s a %d-byte %s: moved %d, again %d", mode == 1 ? "write" : "read", len, mode == 1 ? "to" : "from", S, what, got[0], got[1]);
+    if (want_sample()) snprintf(smp, sizeof smp, "%s %d byte(s) %s a %d-byte %s (earlier streaming access %d): moved %d, again %d", mode == 1 ? "write" : "read", len, mode == 1 ? "to" : "from", S, what, pre, got[0], got[1]);
     mc_case_end(hmix(hmix(4, (uint64_t)(got[0] + 1)), (uint64_t)(got[1] + 1) * 3 + (uint64_t)mode), exp > 0, want_sample() ? smp : 0);
 }
 
@@ -518,9 +525,10 @@ static void run_buffers(int tier)
     if (!tier) for (int i = 0; i < NBS; i++) sizes[ns++] = BSIZES[i];
     else { for (int s = 1; s <= 300; s++) sizes[ns++] = s; for (unsigned i = 0; i < sizeof MORE / sizeof MORE[0]; i++) sizes[ns++] = MORE[i]; }
     buffer_world();
-    for (int mode = 0; mode < 3; mode++) for (int si = 0; si < ns && !mc_deadline_hit(); si++) for (int len = 0; len <= BMAX; len++) {
-        mc_case(3, mode, sizes[si], len);
-        buffer_case(mode, sizes[si], len);
+    for (int mode = 0; mode < 3; mode++) for (int si = 0; si < ns && !mc_deadline_hit(); si++) for (int len = 0; len <= BMAX; len++) for (int pre = 0; pre < 4; pre++) {
+        if (pre && !(len <= 16 || len == sizes[si] || len == sizes[si] - 1 || len == sizes[si] + 1 || len == sizes[si] / 2 || len == BMAX)) continue;   /* after an earlier streaming access: boundary lengths */
+        mc_case(4, mode, sizes[si], len, pre);
+        buffer_case(mode, sizes[si], len, pre);
     }
 }
 
@@ -540,7 +548,7 @@ static void run_case(const int *c, int n)
     if (c[0] == 0) replay_lookup(c, n);
     else if (c[0] == 1 && n >= 6) init_case(c[1], c[2], c[3], c[4], c[5]);
     else if (c[0] == 2 && n >= 4) typed_case(c[1], (uint8_t)c[2], (uint32_t)c[3]);
-    else if (c[0] == 3 && n >= 4) { buffer_world(); buffer_case(c[1], c[2], c[3]); }
+    else if (c[0] == 3 && n >= 4) { buffer_world(); buffer_case(c[1], c[2], c[3], n >= 5 ? c[4] : 0); }
 }
 
 static const char *cfg_name(int c) { return c == 0 ? "lookup" : c == 1 ? "type init once" : c == 2 ? "typed access" : "buffers"; }
